@@ -49,9 +49,21 @@ theorem reverse_coherent (dim3 : Bool) (hl : dim3 = true → LawfulGeo V N) (s s
 theorem append_coherent (dim3 : Bool) (s rhs s' : Mesh V N) (h : append dim3 s rhs = some s') : Coherent dim3 s' := by
   exact withFlags_coherent dim3 _ _ _ _ (append_eq_some h)
 
+/-- `transform_vertices` preserves coherence: the topology and the connected components do not look at the
+coordinates, and (exact geometry: `TransformLaws`, satisfied by an isometry and the rotation of normals) rotating the
+cached pseudo-normals gives the pseudo-normals of the rotated mesh -/
+theorem transformVertices_coherent (dim3 : Bool) (fV : V → V) (fN : N → N) (hl : TransformLaws fV fN) (s s' : Mesh V N)
+    (hc : Coherent dim3 s) (h : transformVertices fV fN s = some s') : Coherent dim3 s' :=
+  transformVertices_coherent' hl hc h
+
+/-- the `transform_vertices` steps of a history use maps satisfying `TransformLaws` -/
+def OpLawful : Op V N → Prop
+  | .transform fV fN => TransformLaws fV fN
+  | _ => True
+
 /-- one operation of a history preserves coherence -/
 theorem step_coherent (dim3 : Bool) (hl : dim3 = true → LawfulGeo V N) (s s' : Mesh V N) (op : Op V N)
-    (hc : Coherent dim3 s) (h : step dim3 s op = some s') : Coherent dim3 s' := by
+    (hop : OpLawful op) (hc : Coherent dim3 s) (h : step dim3 s op = some s') : Coherent dim3 s' := by
   cases op with
   | setFlags f =>
     simp only [step, Option.map_eq_some_iff] at h
@@ -59,6 +71,7 @@ theorem step_coherent (dim3 : Bool) (hl : dim3 = true → LawfulGeo V N) (s s' :
     exact setFlags_coherent dim3 s s1 f r hc h1
   | reverse => exact reverse_coherent dim3 hl s s' hc h
   | append rhs => exact append_coherent dim3 s rhs s' h
+  | transform fV fN => exact transformVertices_coherent dim3 fV fN hop s s' hc h
 
 /-- run a history (`none` as soon as an operation panics) -/
 def run (dim3 : Bool) : Mesh V N → List (Op V N) → Option (Mesh V N)
@@ -68,9 +81,9 @@ def run (dim3 : Bool) : Mesh V N → List (Op V N) → Option (Mesh V N)
     | some s' => run dim3 s' ops
 
 /-- **C11, full statement for the fixed code**: after `with_flags` and any finite sequence of `set_flags`,
-`reverse`, `append`, the derived data are those of the current buffers and flags. -/
+`reverse`, `append`, `transform_vertices`, the derived data are those of the current buffers and flags. -/
 theorem history_coherent (dim3 : Bool) (hl : dim3 = true → LawfulGeo V N) (vs : List V) (idx : List Tri) (f : Flags)
-    (ops : List (Op V N)) (s0 s : Mesh V N)
+    (ops : List (Op V N)) (hops : ∀ op ∈ ops, OpLawful op) (s0 s : Mesh V N)
     (h0 : withFlags dim3 vs idx f = .ok s0) (h : run dim3 s0 ops = some s) : Coherent dim3 s := by
   have hc0 := withFlags_coherent dim3 vs idx f s0 h0
   clear h0
@@ -81,7 +94,8 @@ theorem history_coherent (dim3 : Bool) (hl : dim3 = true → LawfulGeo V N) (vs 
     split at h
     · cases h
     · rename_i s1 hs
-      exact ih s1 h (step_coherent dim3 hl s0 s1 op hc0 hs)
+      exact ih (fun o ho => hops o (List.mem_cons_of_mem _ ho)) s1 h
+        (step_coherent dim3 hl s0 s1 op (hops op List.mem_cons_self) hc0 hs)
 
 /-! ## the QBVH (and therefore the AABB) stays the one a fresh build would construct
 
@@ -129,6 +143,7 @@ theorem history_qcoherent {B : Type} (box : V × V × V → B) (hbox : BoxLaws (
         exact setFlags_qcoherent box hbox dim3 s0 s2 f' r hc0 h1
       | reverse => exact reverse_qcoherent box hbox dim3 s0 s1 hc0 hs
       | append rhs => exact withFlags_qcoherent box dim3 _ _ _ s1 (append_eq_some hs)
+      | transform fV fN => exact transformVertices_qcoherent' box hs
 
 /-- `merge_duplicate_vertices` never produces more triangles, produces a well-formed index buffer, and when it deletes
 no triangle every triangle keeps its box -/
@@ -164,6 +179,11 @@ theorem setFlags_no_panic (dim3 : Bool) (s : Mesh V N) (f : Flags) (h : WF s) :
 /-- `reverse` never panics on a well-formed mesh and leaves it well formed -/
 theorem reverse_no_panic (dim3 : Bool) (s : Mesh V N) (h : WF s) : ∃ s', reverse dim3 s = some s' ∧ WF s' :=
   reverse_no_panic' dim3 h
+
+/-- `transform_vertices` never panics on a well-formed mesh and leaves it well formed -/
+theorem transformVertices_no_panic (fV : V → V) (fN : N → N) (s : Mesh V N) (h : WF s) :
+    ∃ s', transformVertices fV fN s = some s' ∧ WF s' :=
+  transformVertices_no_panic' h
 
 /-- `append` panics exactly when both meshes have lost all their triangles (`with_flags(..).unwrap()` on
 `EmptyIndices`); otherwise the result is well formed -/
@@ -413,6 +433,28 @@ theorem connectedComponents_reverse (nv : Nat) (idx : List Tri) : computeCC nv (
 theorem pseudoNormals_reverse [LawfulGeo V N] (vs : List V) (idx : List Tri) :
     (computePN vs (revIdx idx) : Option (PN N)) = (computePN vs idx).map (negPN (V := V) · true) :=
   computePN_rev vs idx
+
+/-- `TransformLaws` are satisfiable: in the planar geometry, the quarter turn followed by a translation, with the identity
+on (z-)normals -/
+def quarterTurn (p : Pt) : Pt := (3 - p.2, p.1 + 5)
+
+theorem quarterTurn_laws : TransformLaws (N := Int) quarterTurn id where
+  map_zero := rfl
+  map_add _ _ := rfl
+  contrib_map a b c := by
+    show (let d := ((3 - b.2) - (3 - a.2)) * ((c.1 + 5) - (a.1 + 5)) - ((b.1 + 5) - (a.1 + 5)) * ((3 - c.2) - (3 - a.2));
+          if d = 0 then none else some (d, d, d, d)) =
+      (let d := (b.1 - a.1) * (c.2 - a.2) - (b.2 - a.2) * (c.1 - a.1); if d = 0 then none else some (d, d, d, d)).map
+        fun w => (id w.1, id w.2.1, id w.2.2.1, id w.2.2.2)
+    have h : ((3 - b.2) - (3 - a.2)) * ((c.1 + 5) - (a.1 + 5)) - ((b.1 + 5) - (a.1 + 5)) * ((3 - c.2) - (3 - a.2)) =
+        (b.1 - a.1) * (c.2 - a.2) - (b.2 - a.2) * (c.1 - a.1) := by ring
+    simp only [h, id]
+    by_cases h0 : (b.1 - a.1) * (c.2 - a.2) - (b.2 - a.2) * (c.1 - a.1) = 0 <;> simp [h0]
+
+example : ∃ s : Mesh Pt Int,
+    hist true [(0,0),(1,0),(0,1),(1,1)] [⟨0,1,2⟩, ⟨1,3,2⟩] (fl 11) [.transform quarterTurn id, .reverse] = some s ∧
+    Coherent true s ∧ s.vertices = [(3,5),(3,6),(2,5),(2,6)] :=
+  ⟨_, rfl, by decide, by decide⟩
 
 /-- the component-wise min/max box of the planar geometry satisfies `BoxLaws` (non-vacuity of the QBVH theorems) -/
 def planarBox (c : Pt × Pt × Pt) : Pt × Pt :=
